@@ -25,17 +25,18 @@ open KVerif.L KVerif.K
 /-- **idle_covers_time_driven** (full): when kanata says it is idle, every time-driven component is at
 rest: nothing queued, no tap-hold / tap-dance / chord waiting (first or extra), no quick-tap window,
 no one-shot key held, no rapid-event pause, no macro running, no eager tap-dance, no queued action,
-no scrolling or mouse movement, no macro-cancel window, no caps-word, no timed virtual key. -/
+no scrolling or mouse movement, no macro-cancel window, no caps-word, no timed virtual key, not in
+sequence mode (`sequence_state.is_inactive()`). -/
 theorem idle_covers_time_driven (k : KState) (h : isIdle k = true) :
     k.layout.queue = [] ∧ k.layout.waiting = none ∧ k.layout.extraWaiting = [] ∧
     k.layout.lptTapHoldTimeout = 0 ∧ k.layout.oneshot.keys = [] ∧
     k.layout.oneshot.pauseInputProcessingTicks = 0 ∧ k.layout.activeSequences = [] ∧
     k.layout.tapDanceEager = none ∧ k.layout.actionQueue = [] ∧ k.scroll = none ∧ k.hscroll = none ∧
     k.moveV = none ∧ k.moveH = none ∧ k.macroOnPressCancelDuration = 0 ∧ k.capsWord = none ∧
-    k.vkeysPendingRelease = [] := by
+    k.vkeysPendingRelease = [] ∧ k.seq.st.active = false := by
   simp only [isIdle, Bool.and_eq_true, List.isEmpty_iff, Option.isNone_iff_eq_none, beq_iff_eq] at h
-  obtain ⟨⟨⟨⟨⟨⟨⟨⟨⟨⟨⟨⟨⟨⟨⟨⟨h1, h2⟩, h3⟩, h4⟩, h5⟩, h6⟩, h7⟩, h8⟩, h9⟩, h10⟩, h11⟩, h12⟩, h13⟩, h14⟩, h15⟩, h16⟩, _⟩ := h
-  exact ⟨h1, h2, h3, h4, h5, h6, h7, h8, h9, h10, h11, h12, h14, h13, h15, h16⟩
+  obtain ⟨⟨⟨⟨⟨⟨⟨⟨⟨⟨⟨⟨⟨⟨⟨⟨⟨h1, h2⟩, h3⟩, h4⟩, h5⟩, h6⟩, h7⟩, h8⟩, h9⟩, h10⟩, h11⟩, h12⟩, h13⟩, h14⟩, h15⟩, h16⟩, _⟩, h17⟩ := h
+  exact ⟨h1, h2, h3, h4, h5, h6, h7, h8, h9, h10, h11, h12, h14, h13, h15, h16, by simpa using h17⟩
 
 /-- no state that the sequence machinery acts on by itself -/
 def PlainStates (l : Layout) : Prop :=
@@ -185,7 +186,12 @@ theorem handleKeystateChanges_quiet (k : KState) (hq : QuietLayout k.layout) (hc
   have hcw' : applyCapsWord ({ k with layout := l', overrideStates := ost } : KState) cur'
       = (cur', { k with layout := l', overrideStates := ost }) := by
     unfold applyCapsWord; simp only [hcw]
-  simp only [hcw', diff_silent_when_synced _ _ _ hsync', hkcCustom]
+  have hro := releaseOld_synced ({ k with layout := l', overrideStates := ost } : KState) cur' false hsync'.1
+  have hh : seqReleasedHook ({ k with layout := l', overrideStates := ost } : KState) cur'
+      = .ok { k with layout := l', overrideStates := ost } := seqReleasedHook_synced _ _ hsync'.1
+  have hp : pressLoop cur' cur' ({ k with layout := l', overrideStates := ost } : KState)
+      = .ok { k with layout := l', overrideStates := ost } := pressLoop_synced _ _ _ hsync'.2
+  simp only [hcw', hro, hh, hp, hkcCustom]
 
 
 theorem tick_quiet_eq (l : Layout) (h : QuietLayout l) : tick l = .ok (tickPre l, .noEvent) := by
@@ -227,7 +233,7 @@ theorem block_silent (k : KState) (cur' : List KeyCode) (ost : Override.Override
     tickStates k = .ok (afterQuietTick k cur' ost) ∧ (afterQuietTick k cur' ost).out = k.out ∧
       (afterQuietTick k cur' ost).layout.states = k.layout.states ∧
       MayBlock (afterQuietTick k cur' ost) cur' ost := by
-  obtain ⟨i1, i2, i3, i4, i5, i6, i7, i8, i9, i10, i11, i12, i13, i14, i15, i16⟩ := idle_covers_time_driven k h.idle
+  obtain ⟨i1, i2, i3, i4, i5, i6, i7, i8, i9, i10, i11, i12, i13, i14, i15, i16, i17⟩ := idle_covers_time_driven k h.idle
   have hq : QuietLayout k.layout := ⟨i1, i2, i3, i5, i6, i7, i8, i9, h.plain⟩
   obtain ⟨l', ht, hst, hq', hk⟩ := handleKeystateChanges_quiet k hq i15 h.curEmpty cur' ost h.wanted h.noErase h.synced
   have hl' : l' = tickPre k.layout := by
@@ -237,6 +243,7 @@ theorem block_silent (k : KState) (cur' : List KeyCode) (ost : Override.Override
   let k1 : KState := { k with layout := tickPre k.layout, overrideStates := ost, curKeys := cur' }
   have e2 : handleScrolling k1 = .ok k1 := handleScrolling_none k1 i10 i11
   have e3 : handleMoveMouse k1 = .ok k1 := handleMoveMouse_none k1 i12 i13
+  have e3s : tickSequenceState k1 = .ok k1 := tickSequenceState_inactive k1 i17
   have e4 : tickIdleTimeout k1 = .ok k1 := tickIdleTimeout_nil k1 h.noWait
   let k2 : KState := { k1 with macroOnPressCancelDuration := k1.macroOnPressCancelDuration - 1, prevKeys := k1.curKeys, curKeys := [] }
   have e5 : tickHeldVkeys k2 = .ok k2 := tickHeldVkeys_nil k2 i16
@@ -245,8 +252,8 @@ theorem block_silent (k : KState) (cur' : List KeyCode) (ost : Override.Override
     have hlpt : (tickPre k.layout).lptTapHoldTimeout = 0 := by rw [tickPre_lpt _ hq, i4]
     have hidle := h.idle
     simp only [isIdle, Bool.and_eq_true, List.isEmpty_iff, Option.isNone_iff_eq_none, beq_iff_eq] at hidle ⊢
-    obtain ⟨_, hs⟩ := hidle
-    refine ⟨⟨⟨⟨⟨⟨⟨⟨⟨⟨⟨⟨⟨⟨⟨⟨hq'.queue, hq'.waiting⟩, hq'.extra⟩, hlpt⟩, hq'.osh⟩, hq'.pause⟩, hq'.seqs⟩, hq'.tde⟩, hq'.aq⟩, i10⟩, i11⟩, i12⟩, ?_⟩, i13⟩, i15⟩, i16⟩, ?_⟩
+    obtain ⟨⟨_, hs⟩, hsq⟩ := hidle
+    refine ⟨⟨⟨⟨⟨⟨⟨⟨⟨⟨⟨⟨⟨⟨⟨⟨⟨hq'.queue, hq'.waiting⟩, hq'.extra⟩, hlpt⟩, hq'.osh⟩, hq'.pause⟩, hq'.seqs⟩, hq'.tde⟩, hq'.aq⟩, i10⟩, i11⟩, i12⟩, ?_⟩, i13⟩, i15⟩, i16⟩, ?_⟩, hsq⟩
     · show k.macroOnPressCancelDuration - 1 = 0
       rw [i14]
     · show (!((tickPre k.layout).states.any _)) = true
@@ -259,6 +266,7 @@ theorem block_silent (k : KState) (cur' : List KeyCode) (ost : Override.Override
       | .ok k => _) = _
     rw [e2]; simp only []
     rw [e3]; simp only []
+    rw [e3s]; simp only []
     rw [e4]; simp only []
     rw [← hk2]; exact e5
   · -- the wanted list is the same next time: same states, same unmod lists, and the override pass
@@ -361,10 +369,10 @@ theorem extra_waiting_keeps_counting :
 
 /-- the idle predicate of the tree implies the pinned one (it only got stricter) -/
 theorem idle_implies_pinned_idle (k : KState) (h : isIdle k = true) : isIdlePinned k = true := by
-  obtain ⟨i1, i2, _, i4, i5, _, i7, i8, i9, i10, i11, i12, i13, i14, i15, i16⟩ := idle_covers_time_driven k h
+  obtain ⟨i1, i2, _, i4, i5, _, i7, i8, i9, i10, i11, i12, i13, i14, i15, i16, i17⟩ := idle_covers_time_driven k h
   simp only [isIdle, Bool.and_eq_true] at h
-  have hst := h.2
-  simp only [isIdlePinned, i1, i2, i4, i5, i7, i8, i9, i10, i11, i12, i13, i14, i15, i16, hst]
+  have hst := h.1.2
+  simp only [isIdlePinned, i1, i2, i4, i5, i7, i8, i9, i10, i11, i12, i13, i14, i15, i16, i17, hst]
   simp
 
 end KVerif.C07
